@@ -7,9 +7,10 @@
    [wire]     the concatenated bytes; [closed] whether the server closes the connection;
    [parse]    an independent HTTP/1.x client (status line, headers, body by HEAD/1xx/204/304 rule,
               chunked, Content-Length, or until close) returning the response and the unread rest;
-   [wf]       header names/values and reason are free of CR (names of colon), the application sets none
-              of Content-Length/Transfer-Encoding/Connection itself, 100 <= status <= 999, and the stream
-              flag is only used with iterator bodies. *)
+   [wf]       header names/values, cookies and reason are free of CR (names of colon), the application sets
+              neither Transfer-Encoding nor Connection itself, a Content-Length it sets on an iterator body
+              is the true length, 100 <= status <= 999, and the stream flag is only used with iterator
+              bodies (or no body at all). *)
 From Coq Require Import String List NArith Bool.
 From Circ Require Import Model.HttpResponse Proofs.HttpResponseP.
 Import ListNotations.
@@ -23,10 +24,13 @@ Theorem C15_roundtrip : forall c rest, wf c = true -> (until_close c = true -> r
 Proof. exact roundtrip. Qed.
 Print Assumptions C15_roundtrip.
 
-(* the application's headers are among the recovered ones; the recovered body is the concatenation of the
-   body pieces (none for HEAD and for 1xx/204/205/304) *)
+(* every header the application put on the response (other than a Content-Length, which the server owns for
+   sized bodies) and every cookie (as a Set-Cookie line) is among the recovered headers; the recovered body is
+   the concatenation of the body pieces (none for HEAD and for 1xx/204/205/304) *)
 Theorem C15_expected_is_app_data : forall c,
-  incl (pre c) (p_headers (expected c)) /\ p_status (expected c) = status c /\
+  (forall h, In h (pre c) -> ci_is k_cl (fst h) = false -> In h (p_headers (expected c))) /\
+  (forall v, In v (cookies c) -> In (str "Set-Cookie", v) (p_headers (expected c))) /\
+  p_status (expected c) = status c /\
   p_body (expected c) = if head c || nobody_status (status c) then [] else concat (chunks c).
 Proof. exact expected_app_data. Qed.
 Print Assumptions C15_expected_is_app_data.
@@ -55,23 +59,39 @@ Proof. exact close_wish_honoured. Qed.
 Print Assumptions C15_close_wish.
 
 Theorem C15_keep_alive_kept : forall c, wf c = true -> close0 c = false -> status c <> 413 ->
-  eff_sized c = true \/ (v11 c = true /\ head c = false) -> closed c = false.
+  has_cl c = true \/ (v11 c = true /\ head c = false) -> closed c = false.
 Proof. exact keep_alive_kept. Qed.
 Print Assumptions C15_keep_alive_kept.
 
-(* chunked encoding is only used towards HTTP/1.1, never for HEAD, never together with Content-Length;
-   and Content-Length is the number of body bytes *)
-Theorem C15_chunked_only_11 : forall c, chunked c = true -> v11 c = true /\ head c = false /\ clen c = None.
+(* HEAD (with a known length) and body-less statuses never end a kept-alive connection by themselves *)
+Theorem C15_bodiless_keeps_open : forall c, wf c = true -> close0 c = false -> status c <> 413 ->
+  nobody_status (status c) = true \/ (head c = true /\ has_cl c = true) -> closed c = false.
+Proof. exact bodiless_keeps_open. Qed.
+Print Assumptions C15_bodiless_keeps_open.
+
+(* chunked encoding is only used towards HTTP/1.1, never for HEAD, never together with Content-Length *)
+Theorem C15_chunked_only_11 : forall c, chunked c = true -> v11 c = true /\ head c = false /\ cl_hdr c = None.
 Proof. exact chunked_only_11. Qed.
 Print Assumptions C15_chunked_only_11.
 
-Theorem C15_content_length_exact : forall c n, clen c = Some n ->
-  n = N.of_nat (length (concat (eff_chunks c))).
+(* whichever Content-Length ends up on a non-HEAD response - the server's count, or the application's own
+   header on an iterator body (wf: it told the truth) - the client reads it and it is the number of body bytes;
+   for sized bodies the server's count replaces whatever the application set *)
+Theorem C15_content_length_exact : forall c v, wf c = true -> head c = false -> cl_hdr c = Some v ->
+  lookup k_cl (p_headers (expected c)) = Some v /\
+  undec v = Some (N.of_nat (length (concat (eff_chunks c)))).
 Proof. exact content_length_exact. Qed.
 Print Assumptions C15_content_length_exact.
 
+Theorem C15_sized_overrides_app_cl : forall c, eff_sized c = true ->
+  cl_hdr c = Some (dec (N.of_nat (length (concat (eff_chunks c))))).
+Proof. exact sized_overrides_app_cl. Qed.
+Print Assumptions C15_sized_overrides_app_cl.
+
 (* any sequence of requests on one connection, each response but the last leaving it open: the client reads
-   the concatenated output as exactly the sequence of responses, with nothing left over *)
+   the concatenated output as exactly the sequence of responses, with nothing left over.  [cs] is arbitrary:
+   HEAD requests, body-less statuses, streamed and sized bodies, cookies and application Content-Length may be
+   interleaved in any order (C15_ex_seq is such a sequence; C15_bodiless_keeps_open says those never break it) *)
 Theorem C15_keepalive_sequence : forall cs, conn_ok cs = true ->
   parse_many (map head cs) (concat (map wire cs)) = Some (map expected cs).
 Proof. exact keepalive_sequence. Qed.
@@ -89,19 +109,30 @@ Print Assumptions C15_hex_roundtrip.
 (* ---- non-vacuity *)
 Definition ex_stream : cfg :=
   {| v11 := true; head := false; status := 200; reason := str "OK"; close0 := false;
-     pre := [(str "X-Tag", str "7")]; sized := false; stream := true;
+     pre := [(str "X-Tag", str "7")]; cookies := [str "a=1"]; sized := false; stream := true;
      chunks := [[]; str "abc"; []; str "de"] |}.
 Definition ex_head : cfg :=
   {| v11 := true; head := true; status := 200; reason := str "OK"; close0 := false;
-     pre := []; sized := true; stream := false; chunks := [str "hello"] |}.
+     pre := []; cookies := []; sized := true; stream := false; chunks := [str "hello"] |}.
 Definition ex_204 : cfg :=
   {| v11 := true; head := false; status := 204; reason := str "No Content"; close0 := false;
-     pre := []; sized := true; stream := false; chunks := [str "dropped"] |}.
+     pre := []; cookies := []; sized := true; stream := false; chunks := [str "dropped"] |}.
 Definition ex_10_iter : cfg :=
   {| v11 := false; head := false; status := 200; reason := str "OK"; close0 := false;
-     pre := []; sized := false; stream := false; chunks := [str "a"; str "b"] |}.
+     pre := []; cookies := []; sized := false; stream := false; chunks := [str "a"; str "b"] |}.
 
-Example C15_ex_wf : forallb wf [ex_stream; ex_head; ex_204; ex_10_iter] = true.
+(* a file served with the application's own Content-Length (as tools.serve_file does) and two cookies,
+   on HTTP/1.0 keep-alive: delimited by that header, connection stays open *)
+Definition ex_file_cl : cfg :=
+  {| v11 := false; head := false; status := 200; reason := str "OK"; close0 := false;
+     pre := [(str "Content-Length", str "5"); (str "X-Tag", str "1")]; cookies := [str "a=1"; str "c=x; Path=/"];
+     sized := false; stream := true; chunks := [str "abc"; str "de"] |}.
+(* the same header on a sized body is overwritten *)
+Definition ex_sized_cl : cfg :=
+  {| v11 := true; head := false; status := 200; reason := str "OK"; close0 := false;
+     pre := [(str "Content-Length", str "999")]; cookies := []; sized := true; stream := false; chunks := [str "hello"] |}.
+
+Example C15_ex_wf : forallb wf [ex_stream; ex_head; ex_204; ex_10_iter; ex_file_cl; ex_sized_cl] = true.
 Proof. vm_compute. reflexivity. Qed.
 Example C15_ex_stream_wire :
   match respond ex_stream with
@@ -111,9 +142,13 @@ Example C15_ex_stream_wire :
 Proof. vm_compute. split; reflexivity. Qed.
 Example C15_ex_until_close : until_close ex_10_iter = true /\ closed ex_10_iter = true /\ chunked ex_stream = true.
 Proof. vm_compute. repeat split. Qed.
-Example C15_ex_seq : conn_ok [ex_head; ex_204; ex_stream; ex_10_iter] = true.
+Example C15_ex_app_cl : cl_hdr ex_file_cl = Some (str "5") /\ closed ex_file_cl = false /\ chunked ex_file_cl = false
+  /\ cl_hdr ex_sized_cl = Some (str "5").
+Proof. vm_compute. repeat split. Qed.
+Example C15_ex_seq : conn_ok [ex_head; ex_204; ex_file_cl; ex_head; ex_stream; ex_sized_cl; ex_204; ex_10_iter] = true.
 Proof. vm_compute. reflexivity. Qed.
 Example C15_ex_seq_parse :
-  option_map (map p_body) (parse_many [true; false; false; false] (concat (map wire [ex_head; ex_204; ex_stream; ex_10_iter])))
-  = Some [[]; []; str "abcde"; str "ab"].
+  option_map (map p_body) (parse_many [true; false; false; true; false; false; false; false]
+     (concat (map wire [ex_head; ex_204; ex_file_cl; ex_head; ex_stream; ex_sized_cl; ex_204; ex_10_iter])))
+  = Some [[]; []; str "abcde"; []; str "abcde"; str "hello"; []; str "ab"].
 Proof. vm_compute. reflexivity. Qed.
